@@ -1,4 +1,5 @@
 import Clover.Generated.Facts
+import Clover.Proofs.Translated
 import Clover.Model.Criteria
 import Clover.Proofs.KindInvariance
 /-! # C16 — criteria obey Boolean algebra and literal normalisation -/
@@ -82,13 +83,24 @@ theorem literal_kind_invariance (d : Doc) (hd : NumsOK (.obj d)) (c c' : Crit)
     (h : Crit.SameUpToKinds c c') (hc : c.LitsOK) (hc' : c'.LitsOK) :
     sat likeFn fnFam d c = sat likeFn fnFam d c' := sat_sameUpToKinds likeFn fnFam d hd h hc hc'
 
+/-- (translated, regenerated from the source on every run) **the comparison criteria as the current source evaluates
+    them**: `UnaryCriteria.compare` (Gt / GtEq / Lt / LtEq; its `panic` is not reached for these operators),
+    `UnaryCriteria.eq` and `UnaryCriteria.exist`, translated statement by statement, are the model's `satCmp` and
+    `Doc.has` - for every document, field and operand (a literal or a field reference). -/
+theorem source_comparison_criteria_are_the_models (f : Bytes) (x : Operand) (d : Doc) :
+    (∀ op : CmpOp, op ≠ .eq → Gen.UnaryCriteria_compare ⟨Translated.opName op, f, x⟩ d = some (satCmp d op f x)) ∧
+    Gen.UnaryCriteria_eq ⟨Translated.opName .eq, f, x⟩ d = satCmp d .eq f x ∧
+    (∀ op : String, Gen.UnaryCriteria_exist ⟨op, f, x⟩ d = d.has f) :=
+  ⟨fun op hop => Translated.unaryCompare_eq op hop f x d, Translated.unaryEq_eq f x d,
+   fun op => Translated.unaryExist_eq op f x d⟩
+
 end CV.Props.C16
 
 -- SOURCE-TEXT-BEGIN (generated by tools/mk_source_theorems.py; do not edit by hand)
 namespace CV.Props.C16
 
 /-- (facts, regenerated from the source on every run) **The source text the model transcribes is the text of the
-    current source**: the bodies (comments and layout removed) of the 51 functions the model behind C16 was written from and
+    current source**: the bodies (comments and layout removed) of the 48 functions the model behind C16 was written from and
     validated against.  Any edit of one of them breaks this theorem at build time; the check then searches with the
     property's own oracles for a failing input, and reports `no-failing-input-found` if it finds none: the model then
     has to be re-validated against the new text (and this block regenerated). -/
@@ -123,10 +135,7 @@ theorem source_decision_logic : CV.Facts.logicC16 = [
   "query.UnaryCriteria.Not: { return not(c) }", 
   "query.UnaryCriteria.Or: { return or(c, other) }", 
   "query.UnaryCriteria.Satisfy: { switch c.OpType { case ExistsOp: return c.exist(doc) case EqOp: return c.eq(doc) case LikeOp: return c.like(doc) case InOp: return c.in(doc) case GtOp, GtEqOp, LtOp, LtEqOp: return c.compare(doc) case ContainsOp: return c.contains(doc) case FunctionOp: return c.Value.(func(*d.Document) bool)(doc) } return false }", 
-  "query.UnaryCriteria.compare: { normValue, err := internal.Normalize(getFieldOrValue(doc, c.Value)) if err != nil { return false } res := internal.Compare(doc.Get(c.Field), normValue) switch c.OpType { case GtOp: return res > 0 case GtEqOp: return res >= 0 case LtOp: return res < 0 case LtEqOp: return res <= 0 } panic(\"unreachable code\") }", 
   "query.UnaryCriteria.contains: { elems := c.Value.([]interface{}) fieldValue := doc.Get(c.Field) slice, _ := fieldValue.([]interface{}) if fieldValue == nil || slice == nil { return false } for _, elem := range elems { found := false actualValue, err := internal.Normalize(getFieldOrValue(doc, elem)) if err != nil { return false } for _, val := range slice { if internal.Compare(actualValue, val) == 0 { found = true break } } if !found { return false } } return true }", 
-  "query.UnaryCriteria.eq: { value, err := internal.Normalize(getFieldOrValue(doc, c.Value)) if err != nil { return false } if !doc.Has(c.Field) { return false } return internal.Compare(doc.Get(c.Field), value) == 0 }", 
-  "query.UnaryCriteria.exist: { return doc.Has(c.Field) }", 
   "query.UnaryCriteria.in: { values := c.Value.([]interface{}) docValue := doc.Get(c.Field) for _, value := range values { actualValue, err := internal.Normalize(getFieldOrValue(doc, value)) if err == nil && internal.Compare(actualValue, docValue) == 0 { return true } } return false }", 
   "query.UnaryCriteria.like: { pattern := c.Value.(string) s, isString := doc.Get(c.Field).(string) if !isString { return false } matched, err := regexp.MatchString(pattern, s) return matched && err == nil }", 
   "query.field.Contains: { return newCriteria(ContainsOp, f.name, elems) }", 
